@@ -345,30 +345,36 @@ def _block_views(chk: Check) -> None:
         chk.saw(f)
         me = f.self_name
         x = f.param_names()[1]
-        rets = [r for r in walk_no_nested(f.node) if isinstance(r, ast.Return) and r.value is not None]
-        ok = len(rets) == 1
+        from ..summaries import Outside, Summary
         lower_incl = upper_excl = False
-        if ok:
-            atoms = _cmp_atoms(rets[0].value)
-            for a, op, b in atoms:
-                la, lb = _lin(a, {}), _lin(b, {})
-                if la is None or lb is None:
-                    continue
-                # normalise to  lo <= x  and  x < hi
-                if la == ({"%s.offset" % me: 1}, 0) and lb == ({x: 1}, 0) and op == "LtE":
-                    lower_incl = True
-                if lb == ({"%s.offset" % me: 1}, 0) and la == ({x: 1}, 0) and op == "GtE":
-                    lower_incl = True
+        got = "nothing"
+        ok = False
+        try:
+            sm = Summary(f.node)
+            dnf = sm.truthy_dnf()
+            got = " or ".join("(" + " and ".join(
+                "%s %s %s" % (unparse(a_) if a_ is not None else "", op, unparse(b_) if b_ is not None else "")
+                for a_, op, b_ in sm.constraints(c)) + ")" for c in dnf) or "never true"
+            if len(dnf) == 1:
+                cons = sm.constraints(dnf[0])
                 hi = ({"%s.offset" % me: 1, "%s.size" % me: 1}, 0)
-                if la == ({x: 1}, 0) and lb == hi and op == "Lt":
-                    upper_excl = True
-                if lb == ({x: 1}, 0) and la == hi and op == "Gt":
-                    upper_excl = True
-            ok = lower_incl and upper_excl and len(atoms) == 2
+                for a_, op, b_ in cons:
+                    if a_ is None or b_ is None:
+                        continue
+                    la, lb = _lin(a_, {}), _lin(b_, {})
+                    if la is None or lb is None:
+                        continue
+                    # facts are canonical: only  a < b  and  a <= b  occur for order comparisons
+                    if la == ({"%s.offset" % me: 1}, 0) and lb == ({x: 1}, 0) and op == "LtE":
+                        lower_incl = True
+                    if la == ({x: 1}, 0) and lb == hi and op == "Lt":
+                        upper_excl = True
+                ok = lower_incl and upper_excl and len(cons) == 2
+        except Outside as e:
+            got = "outside the fragment: %s" % e
         chk.ob("R19.4", "ByteBlock.contains_offset:half-open-range", ok, f.loc(),
-               "contains_offset must be offset <= x < offset + size (the range the contents slice "
-               "covers: lower bound inclusive, upper exclusive), got %s"
-               % (unparse(rets[0].value) if rets else "nothing"), 3)
+               "contains_offset must be true exactly when offset <= x < offset + size (the range the "
+               "contents slice covers: lower bound inclusive, upper exclusive); it is true when %s" % got, 3)
     # contains_address
     f = bb.methods.get("contains_address")
     if f is None:
